@@ -559,22 +559,26 @@ pub fn spec_huff_step(s: &[u8], pos: usize) -> SpecHuffStep {
     let total = s.len() * 8;
     let avail = total - pos; // pos <= total
     let w = spec_window32(s, pos);
-    // "for c in 0..=256", written as 17 rows of 16 so that no single loop needs more than 17 unwindings
-    // (Kani's unwind bound also limits the recursion depth of the decoder under test)
-    let mut row = 0;
-    while row < 17 {
-        let mut col = 0;
-        while col < 16 {
-            let c = row * 16 + col;
-            if c < 257 {
-                let l = SPEC_HUFF_LEN[c] as u32;
-                if l as usize <= avail && (w >> (32 - l)) == SPEC_HUFF_CODE[c] {
-                    return if c == SPEC_HUFF_EOS { SpecHuffStep::Eos } else { SpecHuffStep::Sym { sym: c as u8, len: l } };
+    // "for c in 0..=256", written as three nested loops (7 x 7 x 6 >= 257) so that no single loop needs more
+    // than 7 unwindings (Kani's unwind bound also limits the recursion depth of the decoder under test)
+    let mut i = 0;
+    while i < 7 {
+        let mut j = 0;
+        while j < 7 {
+            let mut k = 0;
+            while k < 6 {
+                let c = (i * 7 + j) * 6 + k;
+                if c < 257 {
+                    let l = SPEC_HUFF_LEN[c] as u32;
+                    if l as usize <= avail && (w >> (32 - l)) == SPEC_HUFF_CODE[c] {
+                        return if c == SPEC_HUFF_EOS { SpecHuffStep::Eos } else { SpecHuffStep::Sym { sym: c as u8, len: l } };
+                    }
                 }
+                k += 1;
             }
-            col += 1;
+            j += 1;
         }
-        row += 1;
+        i += 1;
     }
     // no complete code: the rest is padding
     let ones = avail < 32 && (avail == 0 || (w >> (32 - avail as u32)) == (1u32 << avail as u32) - 1);
